@@ -29,4 +29,15 @@ Definition check_C07 (kind : string) (input output : J) : verdict :=
         V (agree_model m s steps o) (join_prop s steps o) (reorder_changes s steps) false
     | _, _ => malformed
     end
+  else if String.eqb kind "bigprog" then
+    (* big inputs: the observed rows are replaced by Canon.summary (count, key sums, extremes,
+       number of integer leaves, hashes); agree against the model's summary, prop against the
+       summary of the list interpretation *)
+    match dec_prog input, dec_obs output with
+    | Some (s, steps, m), Some o =>
+        if big_ok steps then
+          V (big_agree m s steps o) (big_meets_ref s steps o) (reorder_changes s steps) false
+        else malformed
+    | _, _ => malformed
+    end
   else malformed.
